@@ -180,3 +180,66 @@ def callback_kind(ctx, q, ev):
         if ts[0] == 'sym' and ts[1] == 'fld':
             return 'checker'
     return 'other'
+
+
+# ------------------------------------------------------------------ rewind typestate
+
+def is_seek_start0(ev):
+    if ev['k'] != 'ext' or prims.classify(ev['path'])[0] != 'seek':
+        return False
+    if ev['path'].endswith('::rewind'):
+        return True
+    pos = arg_role(ev, 'pos')
+    if pos is None:
+        return False
+    t = VAL[pos]
+    return t[0] == 'agg' and t[1] == 'std::io::SeekFrom' and t[2] == 'v0' and VAL[t[3]] == ('int', '0')
+
+
+def dirtying_edges(ctx, q, root):
+    """events that move the file offset of the handle whose object is `root`: the handle lent (by &mut) to a
+    user callback, used as the source of io::copy, or read from."""
+    def pred(ev):
+        if ev['k'] == 'usercb':
+            return any(a is not None and obj_handle_root(a) == root for a in ev['args'])
+        if ev['k'] == 'ext':
+            c = prims.classify(ev['path'])[0]
+            r = prims.classify(ev['path'])[1]
+            if c == 'content_write' and 'src' in r:
+                return obj_handle_root(arg_role(ev, 'src')) == root
+            if c == 'read':
+                return obj_handle_root(arg_role(ev, 'handle')) == root
+            if c == 'seek' and not is_seek_start0(ev):
+                return obj_handle_root(arg_role(ev, 'handle')) == root
+        return False
+    return q.edges(pred)
+
+
+def obj_handle_root(v):
+    """identity of a *handle* (not of the file it names): strips payload projections, mutation sets and
+    enum wrappers such as CacheHit::Primary(&mut file) / Some(file)."""
+    n = 0
+    while v is not None and n < 40:
+        n += 1
+        t = VAL[v]
+        if t[0] == 'sym' and t[1] in ('vf', 'fld'):
+            v = t[2]
+        elif t[0] == 'sym' and t[1] == 'mut':
+            v = t[2]
+        elif t[0] == 'agg' and len(t) == 4:
+            v = t[3]
+        else:
+            return v
+    return v
+
+
+def rewind_edges(q, root):
+    S = [e for e in q.edges(is_seek_start0) if obj_handle_root(arg_role(q.E[e][2], 'handle')) == root]
+    return outcomes(q, S, 'Ok')
+
+
+def unrewound(ctx, q, root, until_nodes):
+    """dirtying edges on `root` from which an `until` node is reachable without a successful seek(Start(0))."""
+    D = dirtying_edges(ctx, q, root)
+    S = rewind_edges(q, root)
+    return q.must_follow(D, S, until_nodes), D, S
